@@ -44,7 +44,9 @@
 
 /* read calls compared: more than the bytes can hold records, so that the
  * behaviour after the end of the input is compared as well */
+#ifndef VP_CALLS
 #define VP_CALLS (VP_N / 7 + 2)
+#endif
 
 static int vp_nrep = 0;
 static size_t vp_rep[VP_REF_MAXREP];
